@@ -21,7 +21,7 @@ REQUIRED_EVENTS = ["twins_compared"]
 
 def feat(rng):
     return RG.Feat(operands=0.8, groups=0.3, nots=0.1, ogroups=0.2, deref=0.5, times_item=0.3, group_times=0.2,
-                   icaps=0.05, ocaps=0.1, max_depth=2, max_spine=rng.choice([1, 2, 3, 4]))
+                   icaps=0.05, ocaps=0.1, regfam=0.15, max_depth=2, max_spine=rng.choice([1, 2, 3, 4]))
 
 
 def behaviour(ctx, ws, prep, rule_a, files_a, rule_b):
